@@ -64,6 +64,19 @@ LengthOutcome(kind, class) ==      \* kind: "zigzag" (strings, sequences) or "by
   IF kind = "zigzag" THEN (IF class = "i32max" THEN "ok" ELSE "BadLength")
   ELSE (IF class = "u32max+1" THEN "BadLength" ELSE "ok")
 
+\* size hints of the sequence writer: the known-length form is taken exactly when the hint is exact (lower bound =
+\* upper bound); every other truthful hint - however loose, whatever its bounds - selects the unknown-length form
+\* and has no further effect on the bytes or on the outcome.  A hint is <<min, kind, max>>, kind "none" (no upper
+\* bound), "some" (max), "usizeMax" / "usizeMax-1" (the largest bounds a std adapter reports), "2^31" / "2^32" (bounds beyond the counts of the format).
+HintsFor(n) == {<<n, "some", n>>, <<0, "none", 0>>, <<n, "none", 0>>, <<0, "some", n>>, <<0, "some", n + 1>>, <<n, "some", n + 1000>>,
+                <<0, "usizeMax", 0>>, <<n, "usizeMax", 0>>, <<0, "usizeMax-1", 0>>, <<0, "2^31", 0>>, <<n, "2^32", 0>>}
+HintExact(h) == h[2] = "some" /\ h[3] = h[1]
+HintItems(n) == [i \in 1..n |-> i]
+HintBytes(h, n) == IF HintExact(h) THEN VarI(n) \o HintItems(n)
+                   ELSE VarI(-1) \o SX!FoldLeft(LAMBDA acc, x : acc \o <<1, x>>, <<>>, HintItems(n)) \o <<0>>
+HintCases == {<<h, n, HintBytes(h, n)>> : h \in HintsFor(0) \cup HintsFor(1) \cup HintsFor(3), n \in {0, 1, 3}}
+HintCasesTruthful == {c \in HintCases : c[1][1] <= c[2] /\ (c[1][2] # "some" \/ c[2] <= c[1][3])}
+
 \* a codec that makes a top-level call of its own: an envelope <<dstr "a", the inner encoding as a byte array, dstr "a">>
 \* around the tuple <<"x", c, dstr "b", dstr "b">>.  The inner call has its own tables (the repeat of "b" is its id 1),
 \* the outer table still holds exactly "a" afterwards (the repeat is a back-reference to id 1), and an unsupported
@@ -80,5 +93,6 @@ CaseOf(v) == LET e == Encode(T, v) IN [v |-> v, ok |-> e.ok, err |-> IF e.ok THE
 EmitCases == PrintT(<<"REPLAY", ToJson([ty |-> T, cases |-> IF T \in DeclTypes THEN {CaseOf(v) : v \in StructVals(T)}
                                                               ELSE {CaseOf(Wrap(Chars[i])) : i \in 1..Len(Chars)},
                         lengths |-> {<<k, c, LengthOutcome(k, c)>> : k \in {"zigzag", "bytes"}, c \in LenClasses},
+                        hints |-> HintCasesTruthful,
                         nested |-> NestedCases])>>)
 =============================================================================
